@@ -1,6 +1,7 @@
 /- Driver handlers for the `dec` stream: the decode model run with scripted decoders. -/
 import SevenZ.Driver.Util
 import SevenZ.Model.Decode
+import SevenZ.Model.Stages
 namespace SevenZ.Driver
 open SevenZ
 
@@ -10,12 +11,16 @@ structure Script where
   sizes : List Nat
   backlog : Nat := 0
   counter : Nat := 0
+  held : Bytes := []
 
 def genBytes (start n : Nat) : Bytes := (List.range n).map (fun i => (start + i) % 251)
 
 def scriptChain : Chain Script where
   dec := fun s data maxLen =>
     if s.mode = "copy" then (s, data)
+    else if s.mode = "pass" then
+      -- a filter stage with an internal buffer that honours the limit
+      ({ s with held := (s.held ++ data).drop maxLen }, (s.held ++ data).take maxLen)
     else
       let n := s.sizes.headD 0
       let rest := s.sizes.tail
@@ -49,6 +54,23 @@ def decHandler (op : String) (args : List String) : Option String :=
       | .done out _ => "done " ++ toHex out
       | .stalled out => "stalled " ++ toHex out
       | .outOfFuel => "spin")
+  | "dec.stages", [stagesS, callsS] => do
+    let stages ← (stagesS.splitOn ";").mapM (fun t =>
+      match t.splitOn ":" with
+      | [mode, size, sizes] => do
+        let sz ← parseNats (sizes.replace "+" ",")
+        pure ({ st := { mode, sizes := sz }, unpacked := 0, size := ← size.toNat? } : StageSt Script)
+      | _ => none)
+    let calls ← (callsS.splitOn ";").mapM (fun t =>
+      match t.splitOn ":" with
+      | [k, n] => do pure (← k.toNat?, ← n.toNat?)
+      | _ => none)
+    let (outs, _, _) := calls.foldl (fun (acc : List String × List (StageSt Script) × Nat) c =>
+      let (outs, sts, idx) := acc
+      match Impl.stagesStep scriptChain.dec sts (genBytes (idx * 7) c.2) c.1 with
+      | some (res, lens, sts') => (outs ++ ["res=" ++ toHex res ++ " lens=" ++ showNats lens], sts', idx + 1)
+      | none => (outs ++ ["EOF"], sts, idx + 1)) ([], stages, 0)
+    pure ("|".intercalate outs)
   | _, _ => none
 
 end SevenZ.Driver
